@@ -51,7 +51,9 @@ pub fn emit_parse(out: &mut Out, cfg: &Cfg, entry: &str, s: &str, canonical: Opt
     if !out.begin() { return; }
     let id = out.case(&format!("parse {} {}", entry, hex(s)));
     let p = run_entry(entry, s);
-    out.impl_line(id, &dump(&p));
+    // the parsed value, and what the implementation prints for it (ties the model's printer to the code)
+    let printed = match &p { Parsed::Err | Parsed::Panic => String::new(), _ => match show(&p) { Some(t) => format!(" P {}", hex(&t)), None => " P panic".to_string() } };
+    out.impl_line(id, &format!("{}{}", dump(&p), printed));
     out.stat(&format!("{}_{}", entry, match &p { Parsed::Err => "err", Parsed::Panic => "panic", _ => "ok" }), 1);
     if s.chars().count() < 2 { out.trivial(id); }
     if cfg.want("C18") {
@@ -314,19 +316,40 @@ pub fn run_reader(out: &mut Out, cfg: &Cfg, seed: u64, n: usize) {
         std::fs::write(&path, &file).unwrap();
         let loaded = catch_unwind(AssertUnwindSafe(|| { let mut kb = KnowledgeBase::new(); let e = load_kb_from_file(&mut kb, path.to_str().unwrap()); (kb, e) }));
         let _ = std::fs::remove_file(&path);
+        let path2 = dir.join(format!("kb_{}_b.txt", ci));
+        std::fs::write(&path2, &file).unwrap();
         let direct = catch_unwind(AssertUnwindSafe(|| { let mut kb = KnowledgeBase::new(); let mut err = None;
             for t in &texts { match parse_rule(t) { Ok(rule) => add_rules(&mut kb, vec![rule]), Err(e) => { err = Some(e); break; } } } (kb, err) }));
+        // what the reader makes of the file before any rule is parsed
+        let texts = match catch_unwind(AssertUnwindSafe(|| read_facts_and_rules(path2.to_str().unwrap()))) {
+            Ok(Ok(ts)) => { let mut t = format!("texts {}", ts.len()); for x in &ts { t.push(' '); t.push_str(&hex(x)); t.push('.'); } t },
+            Ok(Err(_)) => "texts err".to_string(), Err(_) => "texts panic".to_string() };
+        let _ = std::fs::remove_file(&path2);
         let (rec, verdict): (String, Result<(), String>) = match (&loaded, &direct) {
             (Ok((kb1, e1)), Ok((kb2, e2))) => {
-                let rec = match e1 { None => format!("ok {}", hex(&format_kb(kb1))), Some(_) => "err".to_string() };
+                let rec = match e1 { None => {
+                        let mut keys: Vec<&String> = kb1.keys().collect(); keys.sort();
+                        let mut t = format!("kb {}", keys.iter().map(|k| kb1[*k].len()).sum::<usize>());
+                        for k in keys { for r in &kb1[k] { t.push(' '); enc_rule(r, &mut t); } }
+                        t },
+                    Some(_) => "kb err".to_string() };
+                let rec = format!("{} ; {}", texts, rec);
                 let v = if e2.is_some() { Ok(()) }      // a rule the rule parser itself rejects: outside (C19's business)
                         else if e1.is_some() { Err(format!("a file of parsable rules was rejected: {}", e1.clone().unwrap())) }
                         else if format_kb(kb1) != format_kb(kb2) { Err("the loaded knowledge base differs from parsing the rules one by one".to_string()) }
                         else { Ok(()) };
                 (rec, v)
             },
-            (Err(_), _) => ("panic".into(), Err("loading the file panicked".into())),
-            (_, Err(_)) => ("skip".into(), Ok(())),
+            (Err(_), _) => (format!("{} ; kb panic", texts), Err("loading the file panicked".into())),
+            (Ok((kb1, e1)), Err(_)) => {
+                // the direct parse of a rule panicked; the loaded side is still compared with the model
+                let rec = match e1 { None => {
+                        let mut keys: Vec<&String> = kb1.keys().collect(); keys.sort();
+                        let mut t = format!("kb {}", keys.iter().map(|k| kb1[*k].len()).sum::<usize>());
+                        for k in keys { for r in &kb1[k] { t.push(' '); enc_rule(r, &mut t); } }
+                        t },
+                    Some(_) => "kb err".to_string() };
+                (format!("{} ; {}", texts, rec), Ok(())) },
         };
         out.impl_line(id, &rec);
         if cfg.want("C21") { match verdict { Ok(()) => out.oracle(id, "C21", true, ""), Err(m) => out.oracle(id, "C21", false, &m) } }
